@@ -1774,6 +1774,11 @@ impl<'a, 'c, P: StylesheetParser<'a>> ValueParser<'a, 'c, P> {
 
 #[cfg(feature = "verif-hooks")]
 impl<'a, 'c, P: StylesheetParser<'a>> ValueParser<'a, 'c, P> {
+    /// The number literal reader (sign, digits, fraction, exponent, unit)
+    pub fn verif_parse_number(parser: &mut P) -> SassResult<Spanned<AstExpr>> {
+        Self::parse_number(parser)
+    }
+
     /// The hex-colour reader, positioned just after the `#`
     pub fn verif_parse_hex_color_contents(parser: &mut P) -> SassResult<Color> {
         let mut value_parser = Self::new(parser, None, false, false);
